@@ -145,9 +145,10 @@ def findings_from(S, ev, prop, rule, result, scope_files=None):
     nocarrier, drop = S.no_carrier()
     hints = {}
     if drop:
-        # probable cause: where anchored propagation first meets the dropped unit
+        # probable cause: where anchored propagation first meets the unit
+        units = {S.units.index(u) for _, _, u, _, _ in nocarrier}
         for inc in S.blame():
-            for ui in drop:
+            for ui in units:
                 if inc.residual.c[ui] != S.zero and ui not in hints and inc.node is not None:
                     hints[ui] = '%s:%d `%s`' % (inc.node.where[0], inc.node.where[2], inc.node.src[:80].replace('\n', ' '))
     for what, n, unit, have, want in nocarrier:
